@@ -26,7 +26,11 @@ type caseC07dec struct {
 }
 
 func genScalarBytes(t *rapid.T) []byte {
-	switch rapid.IntRange(0, 7).Draw(t, "bytesKind") {
+	switch rapid.IntRange(0, 9).Draw(t, "bytesKind") {
+	case 8: // n with several 64-bit limbs perturbed at once
+		return ref.Bytes32(gen.PerturbWords(t, ref.N, 64))
+	case 9: // the same at 32-bit granularity
+		return ref.Bytes32(gen.PerturbWords(t, ref.N, 32))
 	case 0: // valid canonical
 		return ref.Bytes32(gen.Int(ref.N).Draw(t, "v"))
 	case 1: // n + small / n - small
